@@ -160,6 +160,17 @@ func genMesh(seed uint64, tier string) *Plan {
 		}
 	}
 	add("adv", int64(r.rng(1000, 4000)))
+	// Variation drawn from its own stream (the plans of all other seeds stay as they were): behaviour
+	// penalties that move the score, and RPCs that carry GRAFTs for both topics, so that the refusal
+	// of the first GRAFT (back-off: penalty) changes the score the second one has to be judged by.
+	if r2 := newPrng(seed, "mesh-graft2"); nt == 2 && p.kb("scoring") && r2.chance(0.2) {
+		p.Knobs["behaviour_weight"] = []float64{-1, -10, -5000}[r2.intn(3)]
+		for k := range p.Items {
+			if it := &p.Items[k]; it.Op == "graft" && r2.chance(0.6) {
+				*it = Item{Op: "graft2", A: []int64{it.A[0], it.A[1], 1 - it.A[1]}}
+			}
+		}
+	}
 	return p
 }
 
@@ -179,6 +190,11 @@ func runMesh(s *sim) {
 	prop := p.Prop
 	gs := w.n.gs()
 	params := gs.params
+	w.extraOps["graft2"] = func(it Item) { // [peer, first topic, second topic]: both GRAFTs in one RPC, in that order
+		if fp := w.fake(int(it.a(0))); fp != nil && fp.outAlive() {
+			fp.send(rpcGraft(w.topicName(it.a(1)), w.topicName(it.a(2))))
+		}
+	}
 	scoring := p.kb("scoring")
 	idxOf := map[peer.ID]int{}
 	fakeIdx := func(id peer.ID) (int, bool) {
@@ -565,7 +581,7 @@ func runMesh(s *sim) {
 		nowD := post.t
 		var sender *fakePeer
 		switch it.Op {
-		case "graft", "prune", "sub", "unsub", "pub", "ihave", "iwant", "idontwant", "fwd", "resend":
+		case "graft", "graft2", "prune", "sub", "unsub", "pub", "ihave", "iwant", "idontwant", "fwd", "resend":
 			sender = w.fake(int(it.a(0)))
 		}
 		accepted := func(fp *fakePeer) bool {
@@ -730,6 +746,35 @@ func runMesh(s *sim) {
 					}
 					if why != "" {
 						s.violate("C07", "admission", "C07/graft/admitted/"+why, "GRAFT(%s) from %s admitted although: %s", t, sender.name, why)
+					}
+				case it.Op == "graft2" && sender != nil && id == sender.id && (w.topicName(it.a(1)) == t || w.topicName(it.a(2)) == t):
+					// two GRAFTs in one RPC, handled in wire order: each is judged by the state it meets
+					s.probe("remote_graft2_admitted")
+					t1, t2 := w.topicName(it.a(1)), w.topicName(it.a(2))
+					why := ""
+					switch {
+					case pre.direct[id]:
+						why = "direct peer"
+					case score(pre, id) < 0:
+						why = "negative score"
+					case len(P) >= params.Dhi && !pre.outbound[id]:
+						why = "mesh at Dhi and sender inbound"
+					}
+					if exp, ok := pre.backoff[t][id]; ok && s.epoch.Add(nowD).Before(exp) {
+						why = "back-off in force"
+					}
+					if _, ok := pre.gsPeers[id]; !ok {
+						why = "sender is not a connected router peer"
+					}
+					// No time passes inside the item and admitting a GRAFT costs nothing, so a score that is
+					// negative afterwards and was not before became so through the refusal of the FIRST GRAFT,
+					// i.e. before the second one was judged.
+					if why == "" && t == t2 && t1 != t2 && score(pre, id) >= 0 && score(post, id) < 0 && !(post.mesh[t1][id] && !pre.mesh[t1][id]) {
+						s.probe("graft2_second_judged_after_penalty")
+						why = "negative score after the penalty for the first GRAFT of the same RPC"
+					}
+					if why != "" {
+						s.violate("C07", "admission", "C07/graft/admitted/"+why, "GRAFT(%s) from %s (RPC with GRAFT %s, %s) admitted although: %s", t, sender.name, t1, t2, why)
 					}
 				case !existed && (it.Op == "node-sub" || it.Op == "node-relay"):
 					// Join: eligible candidates only, GRAFT sent
